@@ -172,9 +172,11 @@ class SearchKey(Parseable[bytes]):
             pass
         inverse = False
         match = cls._not_pattern.match(buf)
-        if match:
-            inverse = True
+        while match:
+            # search-key = "NOT" SP search-key, negations may be repeated
+            inverse = not inverse
             buf = buf[match.end(0):]
+            match = cls._not_pattern.match(buf)
         try:
             seq_set, buf = SequenceSet.parse(buf, params)
         except NotParseable:
